@@ -3,9 +3,11 @@ import Deb822Verif.Model.DebAccess
 import Deb822Verif.Model.DebLossy
 import Deb822Verif.Model.RelParse
 import Deb822Verif.Model.Pgp
+import Deb822Verif.Model.Changes
 import Deb822Verif.Driver.Codec
 import Deb822Verif.Driver.Rel
 import Deb822Verif.Driver.TypedDoc
+import Deb822Verif.Props.C01More
 /-! C02: acceptance class of each modelled text entry point (`total <entry> <text>`; the nine lossy
     typed document readers take a third argument, the E column of `typed.<kind>`); `*` only for an
     entry point the model does not cover. -/
@@ -55,6 +57,9 @@ def pre : String → List String
 /-- `s.starts_with("Format:")`, the gate of the copyright readers -/
 def formatGate : Str := "Format:".toList
 
+/-- the bytes a reader / a file delivers for the text `s` -/
+def utf8 (s : Str) : ByteArray := (String.ofList s).toUTF8
+
 def entryClass (entry : String) (s : Str) : String :=
   match entry with
   | "deb.strict" => cls (isOk (Deb.readStrict s))
@@ -75,12 +80,19 @@ def entryClass (entry : String) (s : Str) : String :=
   | "ctl.control" => cls (isOk (Deb.readStrict s))
   | "ctl.source" | "ctl.package" | "ctl.release" | "ctl.buildinfo" | "dep3.lossless" =>
     cls (isOk (Deb.paragraphFromStr s))
-  | "ctl.changes" =>
-    -- Changes::read: strict read, then exactly one paragraph
-    (match Deb.readStrict s with
-     | .ok t => cls ((Deb.paragraphs t).length == 1)
-     | .error _ => "err")
-  | "ctl.changes_relaxed" => "ok"
+  -- Changes::read / read_relaxed / from_file / from_file_relaxed: Model/Changes.lean on the bytes
+  | "ctl.changes" => cls (isOk (Changes.readBytes (utf8 s)))
+  | "ctl.changes_relaxed" => cls (Changes.readBytesRelaxed (utf8 s)).isSome
+  | "ctl.changes_from_file" => cls (isOk (Changes.fromFile (utf8 s)))
+  | "ctl.changes_from_file_relaxed" => cls (Changes.fromFileRelaxed (utf8 s)).isSome
+  -- Control::read / read_relaxed (control.rs:162,167) and the file front ends of Deb822 / Control
+  -- (lossless.rs:596,602; control.rs:149,154): `read_to_string`, then from_str / from_str_relaxed
+  | "ctl.read" | "deb.from_file" | "ctl.from_file" => cls (isOk (Props.C01.readBytes (utf8 s)))
+  | "ctl.read_relaxed" | "deb.from_file_relaxed" | "ctl.from_file_relaxed" =>
+    cls (Props.C01.readBytesRelaxed (utf8 s)).isSome
+  -- Copyright::from_file / from_file_relaxed (debian-copyright/src/lossless.rs:123,129)
+  | "cpr.from_file" => cls (formatGate.isPrefixOf s && isOk (Deb.readStrict s))
+  | "cpr.from_file_relaxed" => cls (formatGate.isPrefixOf s)
   | "cpr.lossless" => cls (formatGate.isPrefixOf s && isOk (Deb.readStrict s))
   | "cpr.relaxed" => cls (formatGate.isPrefixOf s)
   | "lrel.relations" => cls (isOk (Rel.Lossy.readRelations s))
